@@ -45,8 +45,8 @@ static void check_pop(const std::string& kase, PhaseSpace& ps, const std::vector
 }
 
 static void part_norm(const std::vector<unsigned>& ns) {
-    for (unsigned n : ns) for (unsigned nb = 1; nb <= 3; nb++) for (auto& fill : fillings(nb)) for (int ex = 0; ex < 3; ex++) for (int dk = 0; dk < 3; dk++) {
-        std::string kase = mcx::Desc()("part", "norm")("n", n)("nb", nb)("filling", fstr(fill))("extent", EXTS[ex].name)("data", dk == 0 ? "impulses" : dk == 1 ? "pairs" : "dense").str();
+    for (unsigned n : ns) for (unsigned nb = 1; nb <= 3; nb++) for (auto& fill : fillings(nb)) for (int ex = 0; ex < 3; ex++) for (int dk = 0; dk < 4; dk++) {
+        std::string kase = mcx::Desc()("part", "norm")("n", n)("nb", nb)("filling", fstr(fill))("extent", EXTS[ex].name)("data", dk == 0 ? "impulses" : dk == 1 ? "pairs" : dk == 2 ? "dense" : "normalised-for-another-pattern").str();
         if (!R.mine(kase)) continue;
         if (R.out_of_time()) { R.not_completed = kase; return; }
         set_size(n, nb);
@@ -70,15 +70,32 @@ static void part_norm(const std::vector<unsigned>& ns) {
                 for (unsigned b = 0; b < nb; b++) { dat[(size_t)b * n * n + (i + 11 * b) % (n * n)] = 1.f + b; dat[(size_t)b * n * n + (j + 5 * b) % (n * n)] += 0.25f * (b + 1); }
                 char w[40]; snprintf(w, 40, "pair=%u,%u", i, j); runone(w);
             }
-        } else {
+        } else if (dk == 2) {
             for (int v = 0; v < 3; v++) {
                 for (unsigned b = 0; b < nb; b++) for (unsigned x = 0; x < n; x++) for (unsigned y = 0; y < n; y++)
                     dat[((size_t)b * n + x) * n + y] = (1.f + b * (v + 1)) * (0.2f + std::fabs(std::sin(0.7f * x * (v + 1) + 0.3f * y + b)));
                 char w[40]; snprintf(w, 40, "dense=%d", v); runone(w);
             }
+        } else {
+            // data that already integrates to one but is distributed over the buckets according to ANOTHER pattern g (every g that has
+            // charge wherever 'fill' wants some), scaled by 1 + k eps, k = -4..4, so that the measured total brackets 1 to the last bit
+            for (auto& g : fillings(nb)) {
+                bool usable = (g != fill); for (unsigned b = 0; b < nb; b++) if (fill[b] > 0 && g[b] == 0) usable = false;
+                if (!usable) continue;
+                std::vector<float> src((size_t)n * n * nb);
+                for (unsigned b = 0; b < nb; b++) for (unsigned x = 0; x < n; x++) for (unsigned y = 0; y < n; y++)
+                    src[((size_t)b * n + x) * n + y] = (1.f + b) * (0.2f + std::fabs(std::sin(0.7f * x + 0.3f * y + b)));
+                { auto pg = mkps(E.qmin, E.qmax, E.pmin, E.pmax, g, src.data()); renorm(*pg); std::copy(pg->getData(), pg->getData() + src.size(), src.begin()); }
+                for (int k = -4; k <= 4; k++) {
+                    for (size_t i = 0; i < src.size(); i++) dat[i] = src[i] * (1.f + k * EPS);
+                    { auto pt = mkps(E.qmin, E.qmax, E.pmin, E.pmax, fill, dat.data()); pt->updateXProjection(); pt->integrate();
+                      if (std::fabs(pt->getIntegral() - 1) <= EPS) R.addnum("sum_norm_cases_with_total_within_one_epsilon_of_1", 1); }
+                    char w[80]; snprintf(w, 80, "from=%s k=%d", fstr(g).c_str(), k); runone(w);
+                }
+            }
         }
     }
-    R.bound_done("norm: n x nb{1,2,3} x all fillings in quarters (zeros included) x 3 extents x {every impulse, impulse pairs, dense}");
+    R.bound_done("norm: n x nb{1,2,3} x all fillings in quarters (zeros included) x 3 extents x {every impulse, impulse pairs, dense, data normalised for every other pattern x 9 scalings around total 1}");
 }
 
 struct G { double mq, sq, mp, sp, amp; };
